@@ -7,6 +7,7 @@ import (
 	"path/filepath"
 	"sort"
 	"strings"
+	"syscall"
 
 	"verif/lib"
 )
@@ -25,6 +26,12 @@ func c02Cases(tier string, seed uint64, flavor string) []lib.Case {
 	n, rep := 200, 3
 	if tier == "thorough" {
 		n, rep = 10000, 8
+	}
+	if flavor != "plain" {
+		// children of this flavour put the stage folder on ANOTHER file system than the build (the system temp
+		// directory instead of the tmpfs scratch) when there is one: renames from the stage folder fail with EXDEV and
+		// the commit phase takes its copy + remove fallback
+		n = n / 2
 	}
 	comps := lib.FastComps()
 	var cases []lib.Case
@@ -121,6 +128,15 @@ func c02Run(c lib.Case, env *lib.Env) lib.Result {
 	for rep := 0; rep < s.Repeats; rep++ {
 		dir := filepath.Join(env.Scratch, fmt.Sprintf("inplace%d", rep))
 		stage := filepath.Join(env.Scratch, fmt.Sprintf("stage%d", rep))
+		if os.Getenv("VERIF_STAGE_OTHER_FS") == "1" {
+			if other, ok := otherFSDir(env.Scratch); ok {
+				stage = filepath.Join(other, fmt.Sprintf("stage%d", rep))
+				defer os.RemoveAll(other)
+				res.Add("commits_with_stage_on_another_file_system", 1)
+			} else {
+				res.Add("no_other_file_system_available", 1)
+			}
+		}
 		if err := pair.Old.Materialize(dir); err != nil {
 			res.Inconclusive("materialize: " + err.Error())
 			return res
@@ -204,6 +220,20 @@ func c02Run(c lib.Case, env *lib.Env) lib.Result {
 	return res
 }
 
+// otherFSDir returns a fresh directory on a file system different from the one holding dir, if the system temp
+// directory is on one.
+func otherFSDir(dir string) (string, bool) {
+	var a, b syscall.Stat_t
+	if syscall.Stat(dir, &a) != nil || syscall.Stat(os.TempDir(), &b) != nil || a.Dev == b.Dev {
+		return "", false
+	}
+	d, err := os.MkdirTemp(os.TempDir(), "verif-c02-stage-")
+	if err != nil {
+		return "", false
+	}
+	return d, true
+}
+
 func firstLine(s string) string {
 	if i := strings.Index(s, "\n"); i >= 0 {
 		return s[:i]
@@ -226,7 +256,19 @@ func kindChanges(p *lib.Pair) []kindChange {
 		if !ok || n.Kind == o.Kind {
 			continue
 		}
-		kc := kindChange{Path: path, What: o.Kind.String() + "->" + n.Kind.String(), renameDst: map[string]bool{}}
+		okind := o.Kind.String()
+		if o.Kind == lib.KDir {
+			empty := true
+			for op := range p.Old.E {
+				if strings.HasPrefix(op, path+"/") {
+					empty = false
+				}
+			}
+			if empty {
+				okind = "emptydir" // an empty directory is replaced without trouble: never explained by a finding about non-empty ones
+			}
+		}
+		kc := kindChange{Path: path, What: okind + "->" + n.Kind.String(), renameDst: map[string]bool{}}
 		for op, oe := range p.Old.E {
 			if oe.Kind != lib.KFile || !(op == path || strings.HasPrefix(op, path+"/")) {
 				continue
@@ -310,5 +352,6 @@ func init() {
 		Run:         c02Run,
 		Batch:       10,
 		ChildEnv:    []string{"BOWL_OVERLAY_VERBOSE=1"},
+		Flavors:     func(tier string) []string { return []string{"plain", "plain:VERIF_STAGE_OTHER_FS=1"} },
 	})
 }
